@@ -8,6 +8,15 @@ TB = ("Trusted: Coq 8.16.1 kernel + coqc (vm_compute, no native_compute); axioms
       "The C code itself is modelled, not verified: theorems are about the Gallina model; the model is tied to /repo's current "
       "tree by T1 (regenerated Gen/Facts.v) and T2 (differential execution) on every run. ")
 CHECKS = {
+ "C12": dict(
+   text="Proof (Coq): executable model of iwexfile.c (three-way split per mmap slot, shared/private windows, truncate, ensure_size, "
+        "add/remove mmap, resize policies with their C arithmetic, chunked copy) refined to a flat byte array for every call sequence with "
+        "shared windows; split_covers, size invariants, IW_RANGES_OVERLAP (translated from the current source) = interval intersection. "
+        "Tied by differential execution of the extracted model against the implementation and an independent flat-array oracle.",
+   design="5/C12",
+   note=TB + "Side conditions of the theorems: arguments in [0, 2^61], page size a power of two. Private (MAP_PRIVATE) windows have no theorem: "
+        "they are compared byte for byte with the model and checked by the oracle between remaps only. mmap/pread coherence of the kernel is trusted.",
+   technique="Coq refinement proof (model -> flat byte array) + extracted-model vs implementation correspondence + regenerated facts"),
  "C19": dict(
    text="Proof (Coq) over a Gallina model of the varint macros, iwitoa/iwatoi, hex codecs and key comparators: round-trip, "
         "length = IW_VNUMSIZE (macro translated from the current source), rejection of sign-bit values, for all 64-bit values; "
